@@ -25,6 +25,42 @@ theorem windows_maximal (L w s : Nat) (hs : 0 < s) : nWindows L w s * s + w > L 
 theorem window_count_iff (L w s i : Nat) (hs : 0 < s) : i < nWindows L w s ↔ i * s + w ≤ L :=
   ⟨in_range_of_lt_nWindows L w s i hs, lt_nWindows_of_in_range L w s i hs⟩
 
+/-- stride 1: one window per start position, `L − w + 1` of them -/
+theorem nWindows_stride_one (L w : Nat) (hw : w ≤ L + 1) : nWindows L w 1 = L + 1 - w := by
+  simp [nWindows]
+
+/-- **No gaps when the stride does not exceed the width**: every position before the end of the last
+window lies in some window (`s ≤ w ≤ L`); only the tail after the last window (fewer than `s` elements,
+by `windows_maximal`) is left out. -/
+theorem windows_cover (L w s j : Nat) (hs : 0 < s) (hsw : s ≤ w) (hw : w ≤ L)
+    (hj : j < (nWindows L w s - 1) * s + w) :
+    ∃ i, i < nWindows L w s ∧ i * s ≤ j ∧ j < i * s + w := by
+  have h0 : 0 < nWindows L w s := (window_count_iff L w s 0 hs).mpr (by simpa using hw)
+  by_cases hq : j / s < nWindows L w s
+  · refine ⟨j / s, hq, Nat.div_mul_le_self j s, ?_⟩
+    have := Nat.lt_div_mul_add (a := j) hs
+    omega
+  · refine ⟨nWindows L w s - 1, by omega, ?_, hj⟩
+    have h1 : nWindows L w s - 1 ≤ j / s := by omega
+    calc (nWindows L w s - 1) * s ≤ (j / s) * s := Nat.mul_le_mul_right s h1
+      _ ≤ j := Nat.div_mul_le_self j s
+
+/-- the left-out tail is shorter than one stride -/
+theorem tail_lt_stride (L w s : Nat) (hs : 0 < s) (hw : w ≤ L) :
+    L - ((nWindows L w s - 1) * s + w) < s := by
+  have h0 : 0 < nWindows L w s := (window_count_iff L w s 0 hs).mpr (by simpa using hw)
+  have hmax := windows_maximal L w s hs
+  have hlast := windows_in_range L w s (nWindows L w s - 1) hs (by omega)
+  have : nWindows L w s * s = (nWindows L w s - 1) * s + s := by
+    conv => lhs; rw [show nWindows L w s = (nWindows L w s - 1) + 1 by omega]
+    rw [Nat.add_mul, Nat.one_mul]
+  omega
+
+example : nWindows 10 4 3 = 3 ∧ (∀ j, j < (3 - 1) * 3 + 4 → ∃ i, i < 3 ∧ i * 3 ≤ j ∧ j < i * 3 + 4) :=
+  ⟨by decide, fun j hj => by
+    have := windows_cover 10 4 3 j (by decide) (by decide) (by decide) (by simpa [show nWindows 10 4 3 = 3 by decide] using hj)
+    simpa [show nWindows 10 4 3 = 3 by decide] using this⟩
+
 /-- the code's `n_rows = int(np.ceil((L - w + 1) / s))` is the documented count whenever the
 sequence is at least as long as the window (also for `L = w - 1`: zero windows) -/
 theorem nRows_is_nWindows (L w s : Nat) (hs : 0 < s) (hw : w ≤ L + 1) : nRows L w s = .ok (nWindows L w s) :=
